@@ -132,6 +132,7 @@ type SimResult struct {
 	Aborted  string
 	Panics   []simrt.PanicInfo
 	Deadlock string // synctest message when leaving the bubble with blocked goroutines
+	Leaked   int    // goroutines of the system under test still alive after every harness task returned
 }
 
 // Sim runs body inside a fresh synctest bubble under the seeded scheduler.
@@ -174,7 +175,11 @@ func (c *Case) Sim(setup func(rt *simrt.RT)) *SimResult {
 	if c.Replaying {
 		c.trace = rt.Trace
 	}
-	if res.Deadlock != "" && rt.AbortReason == "" {
+	res.Leaked = rt.Leaked
+	if rt.Leaked > 0 {
+		c.probes["leaked-goroutines"]++
+	}
+	if res.Deadlock != "" && rt.AbortReason == "" && rt.Leaked == 0 {
 		// the scheduler thought everything finished but goroutines remain
 		res.Hang = true
 		res.Aborted = "leftover-goroutines"
